@@ -1,3 +1,3 @@
-CONSTANTS Scope = "table" TableLo = 1 NTable = 7 MaxLen = 4 RunCalls = TRUE Transports = {"grpc", "rest"} FreeJitter = FALSE Mutant = "none"
+CONSTANTS Scope = "table" TableLo = 1 NTable = 7 MaxLen = 4 RunCalls = TRUE Transports = {"grpc", "grpc_asyncio", "rest"} FreeJitter = FALSE Mutant = "none"
 SPECIFICATION Spec
 INVARIANT EmitRun
